@@ -7,7 +7,8 @@
 From Coq Require Import ZArith List Lia Bool.
 From Low Require Import Lib.MachInt Lib.Bits Lib.BitSeq Lib.Lex Lib.Bytes Lib.BitsExtra_tree
   Spec.Bmtree Spec.IndexSpec Model.BmtreePath Model.BmtreeIndex
-  Proofs.BmtreePathProofs Proofs.BmtreeRankSpec Proofs.ShiftMultiProofs Proofs.BmtreeIndexProofs.
+  Proofs.BmtreePathProofs Proofs.BmtreeRankSpec Proofs.ShiftMultiProofs Proofs.BmtreeIndexProofs
+  Proofs.BmtreeContractProofs.
 Import ListNotations.
 Open Scope Z_scope.
 
@@ -94,4 +95,28 @@ Proof.
   rewrite Z.div_div by (pose proof (pow2_pos (Z.of_nat (length q))); lia).
   rewrite (Z.mul_comm _ 2), <- pow2_succ by lia.
   do 2 f_equal. lia.
+Qed.
+
+(** the child operation of the correspondence run (Run/C03.v [op_child]): both pairs as the
+    specification computes them, for the release and the debug model *)
+Lemma child_checker T q (b dbg : bool) : 1 <= T < 2 ^ 31 ->
+  let h := Z.to_nat (Height T) in
+  (length q < h)%nat ->
+  let f := if dbg then PathToIndexLoose_debug else PathToIndexLoose in
+  f T (enc h q) = Some (spec_rank T h q, Z.b2z (stored T q)) /\
+  f T (enc h (q ++ [b])) =
+    Some (spec_rank T h q + Z.b2z (stored T q) + (if b then T / 2 ^ (Z.of_nat (length q) + 1) else 0),
+          Z.b2z (Z.testbit T (Z.of_nat (length q) + 1))).
+Proof.
+  intros HT h Hq f.
+  assert (HH : Height T = Z.of_nat h) by (apply Proofs.BmtreeContractProofs.Height_nonneg; exact HT).
+  assert (Hqb : (length (q ++ [b]) <= h)%nat) by (rewrite app_length; cbn [length]; lia).
+  assert (E1 : PathToIndexLoose T (enc h q) = Some (spec_rank T h q, Z.b2z (stored T q))).
+  { rewrite (PathToIndexLoose_pre_rank T h q HT HH ltac:(lia)).
+    rewrite spec_rank_pre_rank by (try lia; apply T_range_h; assumption). reflexivity. }
+  pose proof (PathToIndexLoose_child T h q b _ _ HT HH Hq E1) as E2.
+  unfold f. destruct dbg.
+  - rewrite (Proofs.BmtreeContractProofs.PathToIndexLoose_debug_eq T h q HT HH ltac:(lia)).
+    rewrite (Proofs.BmtreeContractProofs.PathToIndexLoose_debug_eq T h (q ++ [b]) HT HH Hqb). now split.
+  - now split.
 Qed.
